@@ -39,6 +39,7 @@ let () =
     | "mech" -> run_mech
     | "ptr" -> run_ptr
     | "cmp" -> run_cmp
+    | "ctor" -> run_ctor
     | _ -> (prerr_endline ("unknown stream " ^ stream); exit 2) in
   let ic = open_in Sys.argv.(2) in
   (try
